@@ -241,6 +241,8 @@ fn check_options(
     use domain::base::opt::{AllOptData, ComposeOptData, OptData};
     let mut it = opt.iter::<AllOptData<_, _>>();
     let mut p = 0;
+    let mut recomposed: Vec<u8> = Vec::new();
+    let mut all_parsed = true;
     while p + 4 <= rd.len() {
         let code = u16::from_be_bytes([rd[p], rd[p + 1]]);
         let len = u16::from_be_bytes([rd[p + 2], rd[p + 3]]) as usize;
@@ -261,6 +263,10 @@ fn check_options(
                 if o.compose_len() as usize != v.len() {
                     issues.push(format!("option {code}: compose_len differs from octets written"));
                 }
+                // as a sender frames it: code, advertised length, data
+                recomposed.extend_from_slice(&o.code().to_int().to_be_bytes());
+                recomposed.extend_from_slice(&o.compose_len().to_be_bytes());
+                recomposed.extend_from_slice(&v);
             }
             Some(Err(_)) => {
                 if strict {
@@ -268,14 +274,41 @@ fn check_options(
                 }
                 // malformed option data (damaged input): what the iterator
                 // does after reporting the error is not judged
+                all_parsed = false;
                 break;
             }
             None => {
                 issues.push("option iterator ended before the options did".into());
+                all_parsed = false;
                 break;
             }
         }
         p += 4 + len;
+    }
+    if all_parsed && p == rd.len() {
+        // parse -> compose -> parse, as for RDATA: same octets, parses again,
+        // equal value, every option parses again to the same octets
+        if recomposed != rd {
+            issues.push("options re-compose to different OPT RDATA".into());
+        }
+        match domain::base::opt::Opt::from_slice(&recomposed) {
+            Ok(again) => {
+                if again.for_slice_ref() != *opt {
+                    issues.push("re-composed options parse to an unequal OPT".into());
+                }
+                let mut n = 0;
+                for o in again.for_slice_ref().iter::<AllOptData<_, _>>() {
+                    match o {
+                        Ok(_) => n += 1,
+                        Err(_) => issues.push("a re-composed option does not parse again".into()),
+                    }
+                }
+                if n != opt.iter::<AllOptData<_, _>>().filter(|x| x.is_ok()).count() {
+                    issues.push("re-composed OPT has a different number of options".into());
+                }
+            }
+            Err(_) => issues.push("re-composed options do not parse as OPT RDATA".into()),
+        }
     }
 }
 
@@ -507,21 +540,67 @@ pub mod order {
     /// two different split points / offsets: (buffer, start position)
     pub fn name_buffers(w: &[u8]) -> Vec<(Vec<u8>, usize)> {
         let offs = label_offsets(w);
+        let nl = offs.len() - 1; // number of non-root labels
+        let ptr = |b: &mut Vec<u8>, target: usize| {
+            b.push(0xC0 | (target >> 8) as u8);
+            b.push(target as u8);
+        };
         let mut out = vec![];
+        // 0: flat
         let mut b0 = vec![0u8; 12];
         b0.extend_from_slice(w);
         out.push((b0, 12));
-        // split after the first label (or pointer only for the root / one label)
-        for (pad, k) in [(0usize, 1usize.min(offs.len() - 1)), (5, offs.len() - 1), (300, offs.len() / 2)] {
+        // labels + pointer, at different split points / offsets
+        for (pad, k) in [(0usize, 1usize.min(nl)), (5, nl), (300, (nl + 1) / 2)] {
             let cut = offs[k];
             let mut b = vec![0u8; 12 + pad];
             let target = b.len();
             b.extend_from_slice(&w[cut..]);
             let start = b.len();
             b.extend_from_slice(&w[..cut]);
-            b.push(0xC0 | (target >> 8) as u8);
-            b.push(target as u8);
+            ptr(&mut b, target);
             out.push((b, start));
+        }
+        // pointer-only chains of 1, 2 and 3 hops to the flat name
+        {
+            let mut b = vec![0u8; 12];
+            b.extend_from_slice(w);
+            let mut target = 12;
+            for _ in 0..3 {
+                let start = b.len();
+                ptr(&mut b, target);
+                out.push((b.clone(), start));
+                target = start;
+            }
+        }
+        // pointer -> labels -> pointer (the name begins with a pointer to a
+        // name that is itself compressed), also through two pointer hops
+        for k in [1usize.min(nl), nl] {
+            let cut = offs[k];
+            let mut b = vec![0u8; 12];
+            b.extend_from_slice(&w[cut..]); // suffix, flat, at 12
+            let t1 = b.len();
+            b.extend_from_slice(&w[..cut]);
+            ptr(&mut b, 12); // first labels + pointer to the suffix
+            let t2 = b.len();
+            ptr(&mut b, t1);
+            out.push((b.clone(), t2));
+            let t3 = b.len();
+            ptr(&mut b, t2);
+            out.push((b, t3));
+        }
+        // labels + pointer -> labels + pointer -> flat suffix
+        if nl >= 2 {
+            let (c1, c2) = (offs[1], offs[2]);
+            let mut b = vec![0u8; 14];
+            b.extend_from_slice(&w[c2..]);
+            let t1 = b.len();
+            b.extend_from_slice(&w[c1..c2]);
+            ptr(&mut b, 14);
+            let t2 = b.len();
+            b.extend_from_slice(&w[..c1]);
+            ptr(&mut b, t1);
+            out.push((b, t2));
         }
         out
     }
@@ -620,7 +699,7 @@ pub mod order {
             let (ra, rb) = (name_reps(&wa, &ba), name_reps(&wb, &bb));
             for (i, (na, x)) in ra.iter().enumerate() {
                 for (j, (nb, y)) in rb.iter().enumerate() {
-                    if ma + mb > 0 && (i + 2 * j + ma) % 3 != 0 {
+                    if ma + mb > 0 && (i + 2 * j + ma) % 5 != 0 {
                         continue;
                     }
                     let what = format!("{na}(case {ma}) vs {nb}(case {mb})");
@@ -927,6 +1006,7 @@ pub mod gen {
         pub rng: Rng,
         pub big: bool,
         pub last_alg: Option<u8>,
+        pub soft_opt: bool,
     }
 
     impl Gen {
@@ -1010,7 +1090,16 @@ pub mod gen {
                 "EDE" => {
                     let mut v = self.octets(2);
                     let n = self.small_len(40);
-                    v.extend((0..n).map(|_| b' ' + self.rng.below(90) as u8));
+                    if self.rng.chance(1, 3) {
+                        // not UTF-8: an RFC content rule only, so a parser may
+                        // refuse it; if it is carried it must survive unchanged
+                        let mut t = self.octets(n);
+                        t.extend_from_slice(*self.rng.pick(&[&b"caf\xc3"[..], &b"\xff"[..], &b"\xe9e\x00"[..]]));
+                        v.extend(t);
+                        self.soft_opt = true;
+                    } else {
+                        v.extend((0..n).map(|_| b' ' + self.rng.below(90) as u8));
+                    }
                     v
                 }
                 "ECS" => {
@@ -1174,6 +1263,7 @@ pub mod gen {
         let layout = table["layout"].as_object().unwrap();
         let types: Vec<&String> = layout.keys().collect();
         g.last_alg = None;
+        g.soft_opt = false;
         let (code, fields): (u16, Vec<Value>) = if g.rng.chance(1, unknown_one_in) {
             let c = *g.rng.pick(&[62u16, 99, 251, 65280, 65534]);
             (c, vec![json!({"kind": "Rest", "min": 0})])
